@@ -187,6 +187,20 @@ def prepare(case):
     order, api, ctype = case["variant"].split("/")
     names = case_names(case)
     variables = _variables(names)
+    if case.get("ext"):
+        # a read-only external variable takes part in the flagged constraints: it gets no node and relates nobody
+        # (DCOP assembled as the YAML loader does: variables, external_variables and constraints set on the object)
+        from pydcop.dcop.objects import ExternalVariable
+        from pydcop.dcop.relations import constraint_from_str
+
+        ext = ExternalVariable("EXT", _CACHE["dom"], 0)
+        cons = {}
+        for (sc, nm), flag in zip(ordered(case_scopes(case), "fwd"), case["ext"]):
+            vs = [variables[i] for i in sc] + ([ext] if flag else [])
+            cons[nm] = constraint_from_str(nm, " + ".join(v.name for v in vs), vs)
+        dcop = DCOP("c17e", "min", variables={v.name: v for v in variables}, constraints=cons)
+        dcop.external_variables = {"EXT": ext}
+        return lambda: pseudotree.build_computation_graph(dcop)
     cons = [_constraint(tuple(s), nm, names, variables, ctype) for s, nm in ordered(case_scopes(case), order)]
     if api == "vc":
         return lambda: pseudotree.build_computation_graph(None, variables=list(variables), constraints=list(cons))
@@ -568,6 +582,15 @@ def enum_multisets(n, max_cons, max_arity):
             yield {"n": n, "scopes": list(combo), "variant": ["fwd/dcop/matrix", "rev/dcop/expr", "fwd/vc/expr"][j % 3]}
 
 
+def enum_ext(n, max_cons, max_arity):
+    """Every multiset of 1..max_cons constraints, every non-empty subset of them also involving the external variable."""
+    scopes = all_scopes(n, max_arity)
+    for m in range(1, max_cons + 1):
+        for combo in itertools.combinations_with_replacement(scopes, m):
+            for mask in range(1, 2 ** m):
+                yield {"n": n, "scopes": list(combo), "variant": "fwd/dcop/expr", "ext": [bool((mask >> i) & 1) for i in range(m)]}
+
+
 def small_plan(quick):
     """[(label, generator factory)] - simplest first."""
     two = ["fwd/dcop/matrix", "rev/vc/expr"]
@@ -583,7 +606,9 @@ def small_plan(quick):
     plan.append(("multisets n=3 <=5 constraints arity<=3", lambda: enum_multisets(3, 5, 3)))
     plan.append(("multisets n=4 <=4 constraints arity<=4", lambda: enum_multisets(4, 4, 4)))
     plan.append(("multisets n=5 <=3 constraints arity<=3", lambda: enum_multisets(5, 3, 3)))
+    plan.append(("external variable: multisets n=3 <=3 constraints arity<=2", lambda: enum_ext(3, 3, 2)))
     if not quick:
+        plan.append(("external variable: multisets n=4 <=3 constraints arity<=3", lambda: enum_ext(4, 3, 3)))
         plan.append(("overlay n=5", lambda: enum_overlay(5)))
         plan.append(("multisets n=4 <=6 constraints arity<=4", lambda: enum_multisets(4, 6, 4)))
         plan.append(("multisets n=5 <=4 constraints arity<=3", lambda: enum_multisets(5, 4, 3)))
@@ -742,7 +767,8 @@ def run(ctx):
         "pseudotree.build_computation_graph: " + "; ".join(l for l, _ in plan) + " (graphs = all labelled graphs as binary "
         "constraints, isolated variables and disconnected graphs included; overlay = every graph + one extra constraint of every "
         "scope of size 1-4, placed last and first; multisets = all multisets of constraints over all scopes: duplicated pairs, "
-        "binary inside ternary, unary); variants alternate constraint order (forward/reversed/all permutations for n<=4), "
+        "binary inside ternary, unary; 'external variable' = the same with every non-empty subset of the constraints also involving a read-only "
+        "external variable, which must get no node and relate nobody); variants alternate constraint order (forward/reversed/all permutations for n<=4), "
         "entry point (dcop= / variables=,constraints=) and constraint class (matrix/unary function/expression); size sweeps "
         "chain,star,clique,ring,ladder,binary tree,ternary sliding-window chain,rich chain (unary+duplicate+ternary),forest for "
         f"every size 1..{60 if ctx.quick else 100}, and long instances up to {max(c['n'] for c in sweeps)} variables "
